@@ -10,6 +10,8 @@ RG = [
                      ("St", "error s", "BadStmt"), ("St", "l error r", "BadBlock")]),
     ("r03", "aslr", [("Sx", "Lx", "File"), ("Lx", "Lx St", None), ("Lx", "St", None), ("St", "a s", "Stmt"), ("St", "l .recoveryScope Lx r", "Block"),
                      ("St", "error s", "BadStmt")]),
+    ("r05", "xlrmn", [("Sx", "Lx", "File"), ("Lx", "Lx St", None), ("Lx", "St", None), ("St", "x", "Atom"), ("St", "l Lx r", "Paren"), ("St", "m Lx n", "Bracket"),
+                      ("St", "l error r", "BadParen"), ("St", "m error n", "BadBracket")]),
     ("r04", "aco", [("Sx", "o Ls c", "Call"), ("Sx", "o c", "Call"), ("Ls", "Ls m Ex", None), ("Ls", "Ex", None), ("Ex", "a", "Arg"), ("Ex", "error", "BadArg")]),
 ]
 
@@ -78,7 +80,7 @@ def jobs(ctx):
             open(pf + ".native", "w").write(open(os.path.join(VERIF, "harness", "prelude_dep_native.go.txt")).read().replace("package PKG", "package " + pk))
             extra[os.path.join(root, pk, "zz_verif_prelude_dep.go")] = pf
         T = len(terms)
-        kw = dict(load_dir=root, import_path="vgen/" + pair, extra_overlay=extra, flags=["-looplimit", "100000"])
+        kw = dict(load_dir=root, import_path="vgen/" + pair, extra_overlay=extra, flags=["-looplimit", "100000", "-termbound", "-maxinstrs", "2000000"])
         for n in range(0, nmax + 1):
             if T ** n > (1100 if q else 20000):
                 continue
